@@ -26,6 +26,8 @@ from ..symm import deep_map, axis_permutation, drop_axis, rename_axes, mirror
 from .c05 import apply_row
 
 PROP = 'C08'
+from . import lemmas as _lemmas
+LEMMAS = [_lemmas.PROTOCOL, _lemmas.SOLVE]
 RULES = {'A1': 'equivariance under Cartesian axis permutations', 'A2': 'embedding into the higher-dimensional grid', 'A3': 'mirror symmetry',
          'A4': 'translation across a periodic seam (uniform axis)'}
 ASSUMPTIONS = ['exact arithmetic; solution-level statements follow with C03/C04 (same boundary treatment on the paired grids)',
